@@ -156,16 +156,24 @@ func genReq(r *gen.Rand, cf conf, nkeys int) rq {
 	ccGen(r, &q, 3, 2, 24)
 	if cf.Inv && r.Chance(1, 8) {
 		q.Inv = true
+		// an invalidating request combines freely with everything else; in particular with a
+		// no-cache directive and with an origin response that is not stored afterwards
+		if q.CC == "" && !q.NoCache && !q.NoStore && r.Chance(1, 3) {
+			ccGen(r, &q, 5, 1, 6)
+		}
 	}
-	if cf.Next && r.Chance(1, 10) {
+	if cf.Next && r.Chance(1, 10) || cf.Next && q.Inv && r.Chance(1, 4) {
 		q.Skip = true
 	}
-	if r.Chance(4, 5) {
+	if r.Chance(4, 5) && !(q.Inv && r.Chance(1, 4)) {
 		q.Status = gen.Pick(r, okStatuses)
 	} else {
 		q.Status = gen.Pick(r, badStatuses)
 	}
 	q.Size = genSize(r, cf.MaxBytes)
+	if q.Inv && cf.MaxBytes > 0 && r.Chance(1, 5) {
+		q.Size = min(cf.MaxBytes+1, 4097)
+	}
 	if cf.ExpGen && r.Chance(3, 4) || r.Chance(1, 8) {
 		q.ExpSec = r.Range(1, 5)
 	}
@@ -243,7 +251,7 @@ func runHistory(e *ev.Env, c *ev.Case, cf conf, steps []step, fill bool) *rig {
 		hit := g.judge(q)
 		g.checkVstoreBound()
 		mk := q.mkey()
-		plain := !q.NoCache && !q.NoStore && !q.InvTrue && cf.methodOK(q.Method)
+		plain := !q.NoCache && !q.NoStore && !q.invalidates(cf) && cf.methodOK(q.Method)
 		switch {
 		case hit:
 			hits++
@@ -264,7 +272,7 @@ func runHistory(e *ev.Env, c *ev.Case, cf conf, steps []step, fill bool) *rig {
 				}
 			}
 		}
-		if q.InvTrue || (!hit && plain) {
+		if q.invalidates(cf) || (!hit && plain) {
 			delete(stored, mk)
 		}
 		if q.Mark == "miss" && q.Exec != nil {
